@@ -75,7 +75,7 @@ CASES = {
                "default_ini": False, "class": "", "exc": "NotImplementedError", "opens": [], "reopens": [], "connects": 0, "url": [], "ctx": []}],
         corrupt=lambda t: t[0].__setitem__("opens", [[[47, 100, 101, 118, 47, 120], "rb"]]), at=0),
     "Trace_Decoders": dict(
-        good=[{"fmt": "ReportLuns", "len": 24, "steps": 60, "outcome": "returned"}],
+        good=[{"fmt": "ReportLuns", "len": 24, "steps": 60, "outcome": "returned", "tb1": 0, "tbn": 0}],
         corrupt=lambda t: t[0].__setitem__("steps", 10 ** 6), at=0),
 }
 
